@@ -191,21 +191,22 @@ func minInt(a, b int) int {
 }
 
 const stackDrivers = `
+-- every driver tells probe how many arguments it passes (the count itself included)
 local function fixed(a, b)
   local g1, g2, g3 = "guard1", 4242, a
-  local r = probe(a, b, "x")
+  local r = probe(4, a, b, "x")
   return g1 == "guard1" and g2 == 4242 and g3 == a, r
 end
 local function vararg(...)
   local g1, g2 = "guard1", 4242
   local n = select("#", ...)
-  local r = probe(...)
+  local r = probe(n + 1, ...)
   return g1 == "guard1" and g2 == 4242 and n == select("#", ...), r
 end
 local function nested(d, ...)
   local g = "nested" .. d
   if d == 0 then
-    local r = probe(...)
+    local r = probe(select("#", ...) + 1, ...)
     return g == "nested0", r
   end
   local ok, r = nested(d - 1, ...)
@@ -214,7 +215,7 @@ end
 local function inco(...)
   local co = coroutine.wrap(function(...)
     local g = "inco"
-    local r = probe(...)
+    local r = probe(select("#", ...) + 1, ...)
     coroutine.yield(g == "inco", r)
   end)
   return co(...)
@@ -226,10 +227,20 @@ local function grown(...)
   local function many(...) return select("#", ...) end
   local n = many(unpack(t))
   local g = "grown"
-  local r = probe(...)
+  local r = probe(select("#", ...) + 1, ...)
   return g == "grown" and n == 300, r
 end
-return {fixed = fixed, vararg = vararg, nested = nested, inco = inco, grown = grown}
+-- tail calls: the calling frame (which used many more registers) is gone when probe runs
+local function tailfixed(a, b)
+  local t = {1, 2, 3, 4, 5, 6, 7, 8}
+  local x, y, z = t[1] + t[2], {t[3], t[4]}, "pad" .. t[5]
+  return true, (function(p, q) local u, v, w = {p, q, 1, 2, 3}, p, q return probe(3, u[1], u[2]) end)(a, b)
+end
+local function tailvararg(...)
+  local x, y, z = {...}, select("#", ...), "pad"
+  return true, (function(...) local u = {1, 2, 3, ...} return probe(select("#", ...) + 1, ...) end)(...)
+end
+return {fixed = fixed, vararg = vararg, nested = nested, inco = inco, grown = grown, tailfixed = tailfixed, tailvararg = tailvararg}
 `
 
 func runStack(c *fw.Ctx, idx int, count bool) {
@@ -253,6 +264,9 @@ func runStack(c *fw.Ctx, idx int, count bool) {
 	}
 	bad := ""
 	L.SetGlobal("probe", L.NewFunction(func(L *lua.LState) int {
+		if want, ok := L.Get(1).(lua.LNumber); (!ok || int(want) != L.GetTop()) && bad == "" {
+			bad = fmt.Sprintf("the host function was called with %v arguments and sees GetTop() = %d (Get(%d) = %v)", L.Get(1), L.GetTop(), L.GetTop(), L.Get(L.GetTop()))
+		}
 		if opts.RegistryGrowStep != 0 {
 			// bring the registry to within a few slots of its capacity, so that
 			// the history crosses it (and re-allocates) at one of its operations
@@ -272,7 +286,7 @@ func runStack(c *fw.Ctx, idx int, count bool) {
 		return 1
 	}))
 	drivers := gl.MustLoad(L, stackDrivers).(*lua.LTable)
-	kind := []string{"top", "fixed", "vararg", "nested", "inco", "grown"}[r.Intn(6)]
+	kind := []string{"top", "fixed", "vararg", "nested", "inco", "grown", "tailfixed", "tailvararg"}[r.Intn(8)]
 	nargs := r.Intn(5)
 	args := make([]lua.LValue, nargs)
 	for i := range args {
@@ -285,7 +299,7 @@ func runStack(c *fw.Ctx, idx int, count bool) {
 	var o gl.Outcome
 	switch kind {
 	case "top":
-		res, o = gl.Call(L, L.GetGlobal("probe"), args...)
+		res, o = gl.Call(L, L.GetGlobal("probe"), append([]lua.LValue{lua.LNumber(nargs + 1)}, args...)...)
 	case "nested":
 		res, o = gl.Call(L, drivers.RawGetString(kind), append([]lua.LValue{lua.LNumber(1 + r.Intn(5))}, args...)...)
 	default:
@@ -331,14 +345,49 @@ func runCallContract(c *fw.Ctx, count bool) {
 	defer L.Close()
 	Lmain := L
 	idx := 0
-	for _, callee := range []string{"lua", "go", "callable", "lua-params", "lua-locals", "lua-vararg"} {
+	for _, callee := range []string{"lua", "go", "callable", "lua-params", "lua-locals", "lua-vararg", "callable-args", "callable-go-args"} {
 		for produced := 0; produced <= 4; produced++ {
 			for _, fails := range []bool{false, true} {
 				var fn lua.LValue
 				if produced > 3 && strings.HasPrefix(callee, "lua-") {
 					continue
 				}
+				if (callee == "callable-args" || callee == "callable-go-args") && produced > 3 {
+					continue
+				}
 				switch callee {
+				case "callable-args":
+					// a callable object whose handler hands back what it received: self is the
+					// object, then the arguments in order (the first `produced` of a, b, c)
+					src := "local obj = setmetatable({}, {__call = function(self, a, b, c) if rawequal(self, OBJ) == false then error('Eself') end "
+					if fails {
+						src += "error('Ecall') "
+					}
+					src += "return " + strings.Join([]string{"a", "b", "c"}[:produced], ", ") + " end}) OBJ = obj return obj"
+					fn = gl.MustLoad(L, src)
+				case "callable-go-args":
+					p, f := produced, fails
+					obj := L.NewTable()
+					mt := L.NewTable()
+					mt.RawSetString("__call", L.NewFunction(func(L *lua.LState) int {
+						if L.Get(1) != lua.LValue(obj) {
+							L.RaiseError("Eself: the handler's first argument is %v", L.Get(1))
+						}
+						if f {
+							L.RaiseError("Ecall")
+						}
+						n := L.GetTop()
+						for i := 0; i < p; i++ {
+							if 2+i <= n {
+								L.Push(L.Get(2 + i))
+							} else {
+								L.Push(lua.LNil)
+							}
+						}
+						return p
+					}))
+					L.SetMetatable(obj, mt)
+					fn = obj
 				case "lua-params", "lua-locals", "lua-vararg":
 					// results that are not fresh constants: the first parameters, the
 					// first locals (registers right below other live registers), or
@@ -485,7 +534,7 @@ func runCallContract(c *fw.Ctx, count bool) {
 											var w lua.LValue = lua.LNil
 											if i <= produced {
 												w = lua.LNumber(499 + i)
-												if callee == "lua-params" || callee == "lua-vararg" {
+												if callee == "lua-params" || callee == "lua-vararg" || callee == "callable-args" || callee == "callable-go-args" {
 													// the i-th argument (arguments are 0, 1, 2), nil when not passed
 													w = lua.LNil
 													if i <= nargs {
